@@ -150,6 +150,18 @@ def new_converter(interp):
     from onnxscript._internal import irbuilder
     fn.pycls = irbuilder.IRFunction
     fn.fields.update(name="f", ghost_nodes=[])
+    # every other field the REAL IRFunction.__init__ creates (robust against fields added later): read lazily from a real instance
+    _real_fn = []
+
+    def _lazy_field(interp_, obj, attr):
+        from pyvc.interp import _MISSING
+        if attr.startswith("__"):
+            return _MISSING
+        if not _real_fn:
+            _real_fn.append(irbuilder.IRFunction("f"))
+        d = getattr(_real_fn[0], "__dict__", {})
+        return d[attr] if attr in d else _MISSING
+    fn.lazy = _lazy_field
     self.fields.update(
         source=None, globals={}, this_module=opset18, default_opset_=opset18,
         _outer=[], _current_fn=fn, _nextvar=0, _locals=[{}], _analyzer=None, _castable=set(),
